@@ -1,6 +1,6 @@
 /* VERIF-GROUP
 {
- "property": ["C15", "C17"],
+ "property": ["C15"],
  "entry": "h_prettyprint",
  "enforce": ["sock_addr_prettyprint"],
  "replace": [],
